@@ -50,22 +50,32 @@ class Collector:
         self.ceilings: dict[str, int] = {}  # unresolved ceilings per rule (default 0)
         self.analysed: dict = {}
         self.exhaustive_rules: set = set()
+        self.shape_rules: set = set()  # rules decided by the shape of the code (see rule())
         self.not_decided: list[str] = []
         self.assumptions: list[str] = []
 
     def rule(self, rid: str, text: str, floor: int = 1, ceiling: int = 0,
-             exhaustive: bool = False) -> None:
+             exhaustive: bool = False, shape: bool = False) -> None:
+        """shape=True: the rule recognises an idiom by the shape of the code (normalised text,
+        named locals, statement order).  A mismatch is then UNRESOLVED -- an equivalent spelling
+        the rule does not know is not a defect -- unless the call site passes definite=True
+        because it has positively identified a wrong fact."""
         self.rules[rid] = text
         self.floors[rid] = floor
         self.ceilings[rid] = ceiling
         if exhaustive:
             self.exhaustive_rules.add(rid)
+        if shape:
+            self.shape_rules.add(rid)
 
     def add(self, rule: str, construct: str, loc: str, what: str, verdict: str,
             detail: str = "", stmt=None, facts: Optional[dict] = None,
-            nontrivial: bool = True) -> Instance:
+            nontrivial: bool = True, definite: bool = False) -> Instance:
         if isinstance(stmt, ast.AST):
             stmt = norm_src(stmt)
+        if verdict == VIOLATION and rule in self.shape_rules and not definite:
+            verdict = UNRESOLVED
+            detail = "code shape outside the recognised idioms (not a verdict): " + (detail or "")
         inst = Instance(rule, construct, loc, what, verdict, detail, stmt or "", facts or {},
                         nontrivial)
         self.instances.append(inst)
@@ -91,6 +101,49 @@ class Collector:
         if not recognised:
             return self.unresolved(rule, construct, loc, what, detail_unrec, **kw)
         return self.check(ok, rule, construct, loc, what, detail_ok, detail_bad, **kw)
+
+    def shape(self, cond: bool, rule, construct, loc, what, detail_ok="", detail_unrec="", **kw):
+        """A check by the *shape* of the code (normalised statement text, a named local, an
+        idiom): a match is OK, anything else is UNRESOLVED -- never a violation, because an
+        equivalent spelling that the rule does not know is not a defect."""
+        if cond:
+            return self.ok(rule, construct, loc, what, detail_ok, **kw)
+        return self.unresolved(rule, construct, loc, what,
+                               detail_unrec or "shape of the code is outside the recognised idioms", **kw)
+
+    def text(self, rule, construct, loc, what, actual, accepted, fixed=(), stmt=None, facts=None):
+        """Three-way comparison of a piece of repo code with the accepted forms of a rule
+        (see sa/match.py): same -> OK; same skeleton but a different constant / attribute /
+        operator / non-renamable name -> VIOLATION (the statement is there and says something
+        else); any other shape -> UNRESOLVED."""
+        from . import match
+        accepted = [accepted] if isinstance(accepted, (str, ast.AST)) else list(accepted)
+        v, d = match.best(actual, accepted, fixed)
+        src = (actual if isinstance(actual, str) else norm_src(actual)) if actual is not None else ""
+        if v == match.SAME:
+            return self.ok(rule, construct, loc, what, src[:100], stmt=stmt, facts=facts)
+        if v == match.LEAF:
+            return self.add(rule, construct, loc, what, VIOLATION,
+                            f"`{src[:120]}` differs from the form the definition requires: {match.describe(d)}",
+                            stmt=stmt, facts=facts, definite=True)
+        return self.unresolved(rule, construct, loc, what,
+                               f"`{src[:100]}` is not one of the recognised spellings" if src else "statement not found",
+                               stmt=stmt, facts=facts)
+
+    def text_in(self, rule, construct, d, what, accepted, fixed=(), stmt=None, body=None):
+        """Like text(), searching the statements of def `d` (or `body`) for the accepted form."""
+        from . import match
+        accepted = [accepted] if isinstance(accepted, (str, ast.AST)) else list(accepted)
+        stmts = body if body is not None else d.node.body
+        v, node, diffs = match.find(stmts, accepted, fixed)
+        loc = d.loc(node) if node is not None else d.loc()
+        if v == match.SAME:
+            return self.ok(rule, construct, loc, what, norm_src(node)[:100], stmt=stmt)
+        if v == match.LEAF:
+            return self.add(rule, construct, loc, what, VIOLATION,
+                            f"`{norm_src(node)[:120]}` differs from the form the definition requires: {match.describe(diffs)}",
+                            stmt=stmt, definite=True)
+        return self.unresolved(rule, construct, loc, what, "no statement of a recognised form found", stmt=stmt)
 
     def guard(self, fn, *args, **kw):
         """Run one part of a check; a vanished anchor inside it becomes an UNRESOLVED instance
